@@ -181,3 +181,26 @@ def run(chk, orch):
         chk.extra["crash_points_enumerated_exhaustively_per_workload"] = not quick
         if quick or chk.time_left() < 120:
             break
+
+
+def relocate(doc, orch):
+    """after the workload of a replay document changed, find the crash index again by (stage, label)"""
+    g = doc["golden"]
+    jid = orch.submit(g["hashseed"], g["fn"], dict(g["args"], want=["labels"]))
+    r = orch.run_all()[jid][1]
+    if not r.get("ok") or r["res"]["exit"] != 0:
+        return None
+    labels = [tuple(x) for x in r["res"]["labels"]]
+    st = stages_of(labels)
+    want_label, want_stage = doc["attrs"].get("label"), doc["attrs"].get("stage")
+    k0 = first_crashable(labels)
+    hits = [seq for seq, slot, label, occ in labels if seq >= k0 and label == want_label and st[seq] == want_stage]
+    if not hits:
+        return None
+    # the failing point may be any occurrence of the label: last, first, middle are tried in that order
+    cands = []
+    for seq in dict.fromkeys([hits[-1], hits[0], hits[len(hits) // 2]]):
+        d = dict(doc)
+        d["run"] = dict(doc["run"], args=dict(doc["run"]["args"], fault=dict(doc["run"]["args"]["fault"], index=seq)))
+        cands.append(d)
+    return cands
